@@ -158,8 +158,7 @@ func runCheck(o checkOpts) int {
 			runs = append(runs, convKindRuns(prog, fi, blk, o.prop)...)
 			continue
 		}
-		u := newUnit(prog, fi, blk, o.prop, "")
-		e := u.run(nil)
+		u, e := runUnit(prog, fi, blk, o.prop, "", nil)
 		u.finish()
 		runs = append(runs, unitRun{u, e})
 	}
@@ -283,38 +282,39 @@ func convKindRuns(prog *Program, fi *FuncInfo, blk *Block, prop string) []unitRu
 	cases = append(cases, kcase{"unsupported", nil})
 	for _, kc := range cases {
 		kc := kc
-		u := newUnit(prog, fi, blk, prop, "/from="+kc.name)
-		e := u.run(func(env *Env) {
-			recv := env.vars[u.recvObj]
-			si := u.structOf(u.recvObj.Type())
-			idx, _ := si.Field("ref")
-			ref := u.getField(si, recv, idx)
-			refc := u.D.Fresh("ref", SVal)
-			env.assume(Same(refc, ref))
-			// keep field reads of the receiver syntactically tied to refc
-			inil, _ := si.Field("isNil")
-			ipres, _ := si.Field("isPresent")
-			env.vars[u.recvObj] = u.mkStruct(si, []Term{refc, u.getField(si, recv, inil), u.getField(si, recv, ipres)})
-			u.entry.vars[u.recvObj] = env.vars[u.recvObj]
-			if kc.ty == nil {
-				for _, k := range convKinds {
-					id := prog.TypeIDs.ID(k.Ty)
-					env.assume(Not(Same(u.rtype(refc), IntLit(int64(id)))))
+		u, e := runUnit(prog, fi, blk, prop, "/from="+kc.name, func(u *Unit) func(env *Env) {
+			return func(env *Env) {
+				recv := env.vars[u.recvObj]
+				si := u.structOf(u.recvObj.Type())
+				idx, _ := si.Field("ref")
+				ref := u.getField(si, recv, idx)
+				refc := u.D.Fresh("ref", SVal)
+				env.assume(Same(refc, ref))
+				// keep field reads of the receiver syntactically tied to refc
+				inil, _ := si.Field("isNil")
+				ipres, _ := si.Field("isPresent")
+				env.vars[u.recvObj] = u.mkStruct(si, []Term{refc, u.getField(si, recv, inil), u.getField(si, recv, ipres)})
+				u.entry.vars[u.recvObj] = env.vars[u.recvObj]
+				if kc.ty == nil {
+					for _, k := range convKinds {
+						id := prog.TypeIDs.ID(k.Ty)
+						env.assume(Not(Same(u.rtype(refc), IntLit(int64(id)))))
+					}
+					return
 				}
-				return
+				id := prog.TypeIDs.ID(kc.ty)
+				env.assume(Same(u.rtype(refc), IntLit(int64(id))))
+				env.tags[refc.S] = id
+				// the concrete input, named so that a model can be replayed
+				s := u.sortOf(kc.ty)
+				_, un := u.boxFn(s)
+				in := u.D.Fresh("input_"+kc.name, s)
+				env.assume(Same(App(un, s, refc), in))
+				u.useReflect = true
+				u.reflectFactsFor(env, refc, kc.ty)
+				u.inputConst = in.S
+				u.inputKind = kc.name
 			}
-			id := prog.TypeIDs.ID(kc.ty)
-			env.assume(Same(u.rtype(refc), IntLit(int64(id))))
-			env.tags[refc.S] = id
-			// the concrete input, named so that a model can be replayed
-			s := u.sortOf(kc.ty)
-			_, un := u.boxFn(s)
-			in := u.D.Fresh("input_"+kc.name, s)
-			env.assume(Same(App(un, s, refc), in))
-			u.useReflect = true
-			u.reflectFactsFor(env, refc, kc.ty)
-			u.inputConst = in.S
-			u.inputKind = kc.name
 		})
 		u.finish()
 		target := ""
